@@ -103,6 +103,51 @@ HitOK(te, r) ==
 
 SameHit(a, b) == a.h = b.h /\ (a.h => (a.t - b.t <= Band /\ b.t - a.t <= Band))
 
+(* --------- round 5: the exhaustive scan DEFINED on exact integers -------- *)
+\* For lattice boxes and lattice queries the model itself says what the scan
+\* must find, independently of every element-level primitive of the library:
+\*   "MUST"  the element is in the answer      "NOT"  it is not
+\*   "FREE"  a boundary case (point on a face, ray in the plane of a face or
+\*           only touching, range sphere tangent): the statement leaves ties aside
+\* Both the library's scan (facts) and the index's answer must respect it. This
+\* is what makes a fault INSIDE the box primitives (Contains, ClosestPoint, the
+\* slab test) visible although scan and index share them - in particular for
+\* every IEEE spelling of the same query (negative zero components).
+Max2(a, b) == IF a >= b THEN a ELSE b
+Min2(a, b) == IF a <= b THEN a ELSE b
+Axes == 1..3
+\* q = <<x, y, z, ..>>: box b contains the point
+PtBoxRef(q, b) ==
+    IF \E d \in Axes : q[d] < b.lo[d] \/ q[d] > b.hi[d] THEN "NOT"
+    ELSE IF \A d \in Axes : b.lo[d] < q[d] /\ q[d] < b.hi[d] THEN "MUST" ELSE "FREE"
+\* q = <<x, y, z, rn, rd, zs, rc, tw>>: box b comes within the radius rn/rd (rc = 1: a huge radius)
+Gap(x, lo, hi) == Max2(Max2(lo - x, x - hi), 0)
+RangeBoxRef(q, b) ==
+    LET g2 == Gap(q[1], b.lo[1], b.hi[1]) * Gap(q[1], b.lo[1], b.hi[1])
+              + Gap(q[2], b.lo[2], b.hi[2]) * Gap(q[2], b.lo[2], b.hi[2])
+              + Gap(q[3], b.lo[3], b.hi[3]) * Gap(q[3], b.lo[3], b.hi[3])
+    IN IF q[7] = 1 THEN "MUST"
+       ELSE IF g2 * q[5] * q[5] < q[4] * q[4] THEN "MUST"
+       ELSE IF g2 * q[5] * q[5] > q[4] * q[4] THEN "NOT" ELSE "FREE"
+\* q = <<ox, oy, oz, dx, dy, dz, t0n, t1n, td, zs, tw>>: the ray crosses box b within [t0n/td, t1n/td].
+\* Decided for rays PARALLEL TO AN AXIS (one non-zero direction component: the normalised direction is
+\* a unit vector, so distances along the ray are lattice distances): through (strictly inside the two
+\* other slabs and a crossing of positive length) / outside / on a face (free).
+RayBoxRef(q, b) ==
+    LET nz == {a \in Axes : q[3 + a] # 0}
+    IN IF Cardinality(nz) # 1 THEN "FREE"
+       ELSE LET a == CHOOSE x \in nz : TRUE
+                others == Axes \ {a}
+                out == \E c \in others : q[c] < b.lo[c] \/ q[c] > b.hi[c]
+                inn == \A c \in others : b.lo[c] < q[c] /\ q[c] < b.hi[c]
+                e0 == IF q[3 + a] > 0 THEN b.lo[a] - q[a] ELSE q[a] - b.hi[a]
+                e1 == IF q[3 + a] > 0 THEN b.hi[a] - q[a] ELSE q[a] - b.lo[a]
+                m0 == Max2(e0 * q[9], q[7])
+                m1 == Min2(e1 * q[9], q[8])
+            IN IF out \/ m0 > m1 THEN "NOT" ELSE IF inn /\ m0 < m1 THEN "MUST" ELSE "FREE"
+\* an answer s (sequence of element ids) respects the reference ref[e], e \in 1..n
+RefAgrees(ref, s) == \A e \in DOMAIN ref : (ref[e] = "MUST" => e \in Range(s)) /\ (ref[e] = "NOT" => e \notin Range(s))
+
 (* ------------------- implementation-shaped traversal ------------------- *)
 \* ehit[e]: element e passes the element-level test; chit[c]: the bounds of
 \* cell c pass the same test. Descend only into cells that pass.
